@@ -772,7 +772,40 @@ func init() {
 				key := fmt.Sprintf("%s|stored-row#%d", funcName(addRow), nC)
 				nC++
 				what := "AddRow stores a copy of exactly the row it was given"
-				if stripConv(call.Call.Args[1]) == ssa.Value(rowParam) {
+				// … into a slot of exactly the row's length: on every path to the copy the slot was
+				// made with len(row) or re-sliced to it — a recycled slot that keeps its old length
+				// keeps the trailing cells of a wider row of an earlier table (round 7, C02-r7m2)
+				exact := map[ssa.Instruction]bool{}
+				isRowLen := func(v ssa.Value) bool {
+					x := lenArgOf(v)
+					return x != nil && stripConv(x) == ssa.Value(rowParam)
+				}
+				for _, b := range addRow.Blocks {
+					for _, in := range b.Instrs {
+						st, ok := in.(*ssa.Store)
+						if !ok {
+							continue
+						}
+						if ia, ok := st.Addr.(*ssa.IndexAddr); !ok || !derivesFromField(ia.X, current) {
+							continue
+						}
+						switch v := st.Val.(type) {
+						case *ssa.MakeSlice:
+							if isRowLen(v.Len) {
+								exact[in] = true
+							}
+						case *ssa.Slice:
+							if v.Low == nil && v.High != nil && isRowLen(v.High) {
+								exact[in] = true
+							}
+						}
+					}
+				}
+				if stripConv(call.Call.Args[1]) != ssa.Value(rowParam) {
+					r.bad(key, p.Rel(c.Pos()), what, "what is copied into the row store is not the row parameter itself")
+				} else if path, reach := reachAfter(addRow, nil, call, nil, exact); reach && len(exact) > 0 {
+					r.bad(key, p.Rel(c.Pos()), what, fmtPath("the copy is reachable without the slot having been made or re-sliced to len(row): a recycled slot keeps its previous length and with it the trailing cells of an earlier, wider row", path))
+				} else if stripConv(call.Call.Args[1]) == ssa.Value(rowParam) {
 					r.ok(key, p.Rel(c.Pos()), what)
 				} else {
 					r.bad(key, p.Rel(c.Pos()), what, "what is copied into the row store is not the row parameter itself")
